@@ -429,7 +429,9 @@ class LimitOverlaps(HoloPyObject):
         self.fraction = fraction
 
     def check(self, s):
-        return s.largest_overlap() <= ((np.min(s.r) * 2) * self.fraction)
+        # the diameter of a layered sphere is that of its outermost layer
+        smallest_r = min(np.max(sphere.r) for sphere in s.scatterers)
+        return s.largest_overlap() <= ((smallest_r * 2) * self.fraction)
 
 
 class AlphaModel(Model):
